@@ -294,11 +294,24 @@ impl<'buf, IO: Io> Connection<'_, 'buf, IO> {
                         data.outbound.retained_len(),
                         data.outbound.pending_release_len()
                     );
-                    let packet = serialize_control_packet(
+                    let packet = match serialize_control_packet(
                         &mut small_buf,
                         step.action,
                         runtime.maximum_packet_size,
-                    )?;
+                    ) {
+                        Ok(packet) => packet,
+                        Err(err) => {
+                            // An acknowledgement queued on an earlier connection does not fit
+                            // this connection's Maximum Packet Size: close the connection, as for
+                            // an acknowledgement that does not fit when it is first queued.
+                            warn!(
+                                "Control packet {} exceeds the broker's Maximum Packet Size",
+                                step.action
+                            );
+                            self.handle_disconnect();
+                            return Err(err.into());
+                        }
+                    };
                     PreparedStep::Write(WriteStep {
                         packet: FlushedPacket::Control(step.action),
                         bytes: packet,
